@@ -304,7 +304,14 @@ class Interp:
         if d is None:
             # reading a pointer-like wrapper (Box, Pin<Box>, Unique, ...): yields the pointer to its contents
             return ("memread", p)
-        if d["kind"] == "frozen": return d["value"]
+        if d["kind"] == "frozen":
+            if isinstance(d["value"], list):          # a constant array: nobody writes it during the query, reads are not visible operations
+                if p.idx is None: return ("memread", p)
+                iv = z3.simplify(p.idx)
+                if not z3.is_bv_value(iv): raise EncodingError("symbolic index into a constant array " + repr(p))
+                if iv.as_long() >= len(d["value"]): raise EncodingError("constant array read out of bounds " + repr(p))
+                return d["value"][iv.as_long()]
+            return d["value"]
         return ("memread", p)
 
     def write_local(self, st, depth, name, proj, val):
@@ -459,6 +466,7 @@ class Interp:
             o = r[9:] if r.startswith("no_retag ") else r
             return self.read_place(st, parse_place(o[5:]), dest_type)
         if r.startswith("const "): return self.const(r[6:], fr)
+        if re.match(r"^[A-Za-z_]\w*(::[A-Za-z_]\w*)+$", r): return ("opaque-const", r)          # unit enum variant of a foreign type (log::Level::Warn)
         raise EncodingError("rvalue: " + r)
 
     # ------------------------------------------------------------------ calls
@@ -480,6 +488,13 @@ class Interp:
             if mapped and mapped.startswith("@"):            # type parameter bound to "the type defined in this file"
                 return self.ix.method(m.group(3), mapped[1:])
             tn = self.resolve_type_name(m.group(1))
+            # several channel structs share a simple name (Atomic, FullSync, Crossbeam): a module path in the type expression decides
+            mp = re.match(r"^((?:[a-z_]\w*::)+)[A-Z]\w*", self.subst_type(m.group(1).strip()))
+            if mp:
+                segs = [x for x in mp.group(1).split("::") if x]
+                hint = "/" + "/".join(segs[-2:]) + ".rs" if len(segs) >= 2 else None
+                if hint and any(f.file and ("/" + f.file).endswith(hint) for f in self.ix.by_method.get(m.group(3), [])):
+                    return self._method_by_path(m.group(3), hint, tn)
             fh = self.type_files.get(tn)
             if fh is None: return None
             return self.ix.method(m.group(3), fh, tn)
@@ -493,6 +508,15 @@ class Interp:
         if len(parts) == 1 and parts[0] in self.ix.by_method and len(self.ix.by_method[parts[0]]) == 1:
             return self.ix.by_method[parts[0]][0]
         return None
+
+    def _method_by_path(self, method, hint, self_type):
+        """crate function `method` whose source file path ends with `hint` (e.g. '/arc/atomic.rs', which must not match 'ogre_arc/atomic.rs')"""
+        c = [f for f in self.ix.by_method.get(method, []) if f.file and ("/" + f.file).endswith(hint)]
+        if len(c) > 1 and self_type:
+            c2 = [f for f in c if f.args and self_type in f.types.get(f.args[0], "")]
+            if c2: c = c2
+        if len(c) != 1: raise EncodingError("cannot resolve %s by module path %s: %d candidates" % (method, hint, len(c)))
+        return c[0]
 
     def memdecl(self, p, what):
         d = self.mem.get(p.key())
@@ -566,6 +590,15 @@ class Interp:
         if re.search(r"<impl \[.*\]>::get_unchecked(_mut)?$", c):
             p = a(0)
             if not isinstance(p, Ptr) or p.idx is not None: raise EncodingError("get_unchecked on " + sx(p))
+            if (p.root, p.path) not in self.mem:
+                # an array of STRUCTS (e.g. one ring buffer per listener): its elements are separate sub-objects; the index is
+                # concretised by a case split over the element numbers the layout declares
+                js = sorted({k[1][len(p.path)] for k in self.mem if k[0] == p.root and len(k[1]) > len(p.path) and k[1][:len(p.path)] == p.path and isinstance(k[1][len(p.path)], int)})
+                if not js: raise EncodingError("get_unchecked on an undeclared array " + sx(p))
+                iv = a(1); used("slice::get_unchecked on an array of sub-objects (case split over the index)")
+                alts = [(iv == BV(iv.size(), j), ("val", Ptr(p.root, p.path + (j,)))) for j in js]
+                alts.append((z3.And([iv != BV(iv.size(), j) for j in js]), ("panic", "get_unchecked: index outside the array (undefined behaviour)")))
+                return ("fork", alts)
             used("slice::get_unchecked(_mut)"); return ("val", Ptr(p.root, p.path, a(1)))
         # ---- slice iterators over a shared array: (pointer to the array, next index); the element read itself stays a visible load
         if re.search(r"<impl \[.*\]>::iter$", c):
@@ -575,13 +608,30 @@ class Interp:
             used("slice::iter / Iter::next over a shared array (index cursor; element reads are visible loads)")
             return ("val", Agg("SliceIter", [p, BV(64, 0)]))
         if re.match(r"^<std::slice::Iter<.*> as IntoIterator>::into_iter$", callee, re.S): return ("val", a(0))
+        if re.match(r"^<&\[.*; .*\] as IntoIterator>::into_iter$", callee, re.S):
+            p = a(0)
+            if not isinstance(p, Ptr) or p.idx is not None: raise EncodingError("array into_iter on " + sx(p))
+            self.memdecl(Ptr(p.root, p.path, BV(64, 0)), "array into_iter")
+            used("slice::iter / Iter::next over a shared array (index cursor; element reads are visible loads)")
+            return ("val", Agg("SliceIter", [p, BV(64, 0)]))
+        # ---- std::sync::Arc<T> carried as its content (std's Arc is trusted; clone = same value, drop = nothing)
+        if re.match(r"^Arc::<.*>::new$", callee, re.S) or c in ("Arc::new", "std::sync::Arc::new"): used("Arc::new -> the value itself (std Arc trusted)"); return ("val", a(0))
+        if re.match(r"^<Arc<.*> as Clone>::clone$", callee, re.S):
+            v = a(0); used("Arc::clone -> the same value")
+            if isinstance(v, LRef): v = self.project(st.frames[v.depth].loc[v.name], v.proj)
+            return ("val", v)
+        # ---- logging is off (no logger is installed by the library: log::max_level() == Off), sleeping has no effect on shared state
+        if re.match(r"^<Level as PartialOrd<LevelFilter>>::le$", c): used("log level test -> false (no logger installed: log::max_level() is Off)"); return ("val", z3.BoolVal(False))
+        if c.endswith("Duration::from_millis") or c.endswith("Duration::from_secs"): return ("val", ("opaque-const", "duration"))
+        if c in ("std::thread::sleep", "thread::sleep", "sleep"): used("thread::sleep -> no effect"); return ("val", UNIT)
         if re.match(r"^<std::slice::Iter<.*> as Iterator>::next$", callee, re.S):
             r_ = a(0)
             if not isinstance(r_, LRef): raise EncodingError("Iter::next needs a reference to a local iterator")
             itv = self.project(st.frames[r_.depth].loc[r_.name], r_.proj)
             if not (isinstance(itv, Agg) and itv.kind == "SliceIter"): raise EncodingError("Iter::next on " + sx(itv))
             p, i_ = itv.fields
-            n_el = self.mem[p.key()]["n"]
+            dd = self.mem[p.key()]
+            n_el = dd["n"] if "n" in dd else len(dd["value"])
             more = z3.simplify(z3.ULT(i_, BV(64, n_el)))
             self.write_local(st, r_.depth, r_.name, r_.proj, Agg("SliceIter", [p, z3.simplify(z3.If(more, i_ + 1, i_))]))
             return ("fork", [(more, ("val", opt_some(Ptr(p.root, p.path, i_)))), (z3.Not(more), ("val", opt_none()))])
@@ -606,6 +656,12 @@ class Interp:
         if last in ("spin_loop",) or c.endswith("hint::spin_loop"): used("hint::spin_loop"); return ("val", UNIT)
         if last == "fence" and "atomic" in c or c == "fence": used("atomic::fence (no-op under SC)"); return ("val", UNIT)
         # ---- atomics
+        if re.search(r"Atomic(?:::<\w+>|U32|U64|Usize)?::fetch_update(::<.*>)?$", callee, re.S):
+            # std's fetch_update is a load + closure + compare_exchange_weak retry loop: encoded through the harness prelude's rendition of it
+            f = self.ix.fns.get("__verif::fetch_update")
+            if f is None: raise EncodingError("fetch_update helper missing from the prelude")
+            used("Atomic::fetch_update -> load / closure / compare_exchange_weak retry loop (as in std)")
+            return ("call", f, [a(0), a(1), a(2), a(3)], None)
         m = re.search(r"Atomic(?:::<(\w+)>|U32|U64|Bool|Usize)?::(load|store|swap|fetch_add|fetch_sub|compare_exchange|compare_exchange_weak)$", callee)
         if m and ("atomic::Atomic" in callee or "Atomic::<" in callee or "AtomicU" in callee or "AtomicBool" in callee):
             p = a(0)
@@ -714,7 +770,7 @@ class Interp:
 
     def drop_value(self, st, v):
         """value-directed drop glue"""
-        if v is None or v == UNIT or isinstance(v, (z3.ExprRef, Ptr, LRef)) or (isinstance(v, tuple) and v and isinstance(v[0], str)):
+        if v is None or isinstance(v, (z3.ExprRef, Ptr, LRef)) or (isinstance(v, tuple) and (not v or isinstance(v[0], str))):
             return ("val", UNIT)
         if isinstance(v, Agg):
             if v.kind in ("closure", "tuple", "variant", "array", "partial"):
